@@ -11,8 +11,11 @@ CLAIM = dict(
     text="Every op is executed on dynamic ndarrays filled with unique labels for all source shapes of dim 0..4 / small extents and all valid arguments of the quantifier (all factorisations incl. each position of one -1, all permutations, all valid negative/positive axes and axis lists); shape and every element read lazily through view(i...) are compared with NumPy on the same labels; transpose(p) then transpose(p^-1) and flip twice must restore the source. ASan/UBSan/libstdc++ assertions and the bounds hooks watch the same executions. Held-on-observed.",
     note="Trusted: NumPy as the reference; the harness' own odometer for element reads; only the run-time (dynamic container) argument kinds are exercised here - other kinds are C09's business.",
     ref="DESIGN.md 4/C03")
-HARNESS = ["c03_a", "c03_b"]
-TARGETS_QUICK = [("c03_a", "asan"), ("c03_b", "asan")]
+HARNESS = ["c03_a", "c03_b", "c03_ct"]
+TARGETS_QUICK = [("c03_a", "asan"), ("c03_b", "asan"), ("c03_ct", "asan")]
+
+# pairs of compile-time axes instantiated by harness/c03_ct.cpp (swapaxes_ct / moveaxis_ct)
+CT_PAIRS = [(0, 1), (0, -1), (-1, 0), (1, 2), (-2, -1), (2, 0), (-3, -1), (-1, -3), (1, -2), (2, 2)]
 
 BASE = 100
 
@@ -168,6 +171,22 @@ def gen_cases(rng, tier):
         add("flipud", fmt_vec(s), shape=s)
         if d >= 2:
             add("fliplr", fmt_vec(s), shape=s)
+    # ---- compile-time axes (meta::ct_v<k>) on a source of compile-time dimension 3 (kind 0) and on a dynamic source (kind 1):
+    #      the constant-index branches of the index functions, over the same grids
+    ct_shapes = [s for s in all_shapes(3, 3, mindim=3)]
+    if quick:
+        ct_shapes = [[2, 3, 4], [1, 2, 3], [3, 1, 2]] + rng.sample(ct_shapes, 4)
+    for s in ct_shapes:
+        for kind in (0, 1):
+            for ax in range(-3, 3):
+                add("flip_ct", "%d %s %d" % (kind, fmt_vec(s), ax), shape=s, axes=ax, kind=kind)
+            for ax in range(-4, 4):
+                add("expand_dims_ct", "%d %s %d" % (kind, fmt_vec(s), ax), shape=s, axes=ax, kind=kind)
+            for a1, a2 in CT_PAIRS:
+                add("swapaxes_ct", "%d %s %d %d" % (kind, fmt_vec(s), a1, a2), shape=s, a1=a1, a2=a2, kind=kind)
+                add("moveaxis_ct", "%d %s %d %d" % (kind, fmt_vec(s), a1, a2), shape=s, src=a1, dst=a2, kind=kind)
+            for p in itertools.permutations(range(3)):
+                add("transpose_ct", "%d %s %s" % (kind, fmt_vec(s), fmt_vec(list(p))), shape=s, axes=list(p), kind=kind)
     # scalars (dim 0) through the routes the API offers
     add("atleast_1d", fmt_vec([]), shape=[])
     add("atleast_2d", fmt_vec([]), shape=[])
@@ -183,6 +202,8 @@ def expected(m):
         return a.reshape(m["newshape"])
     if op == "flatten":
         return a.flatten()
+    if op.endswith("_ct"):
+        op = {"flip_ct": "flip1", "expand_dims_ct": "expand_dims1", "swapaxes_ct": "swapaxes", "moveaxis_ct": "moveaxis1", "transpose_ct": "transpose"}[op]
     if op == "transpose":
         return np.transpose(a, m["axes"])
     if op == "transpose_default":
@@ -229,7 +250,9 @@ def argclass(m):
         return "all_ones"
     if op == "reshape":
         parts.append("infer" if -1 in m["newshape"] else "explicit")
-    if op in ("expand_dims1", "flip1", "moveaxis1", "swapaxes"):
+    if op.endswith("_ct"):
+        parts.append("fixed_dim" if m.get("kind") == 0 else "dynamic")
+    if op in ("expand_dims1", "flip1", "moveaxis1", "swapaxes", "expand_dims_ct", "flip_ct", "moveaxis_ct", "swapaxes_ct"):
         vals = [m.get("axes"), m.get("src"), m.get("dst"), m.get("a1"), m.get("a2")]
         parts.append("neg" if any(isinstance(v, int) and v < 0 for v in vals) else "pos")
     return ":".join(parts)
